@@ -321,7 +321,7 @@ def run(chk):
         chk.violation("harness-build", "the correspondence harness does not build against /repo", {"log": out[-4000:]}, found_input=False)
         chk.coverage.update({"evaluations": 0})
         return
-    n_sets, n_ie = (800, 32) if chk.tier == "quick" else (6000, 300)
+    n_sets, n_ie = (600, 20) if chk.tier == "quick" else (6000, 200)
     cases, start = [], 0
     for _ in range(40):
         # exit code 3 = the last record printed is a call that did not return (res=T): resume after it
@@ -420,7 +420,7 @@ def run(chk):
         for i, r in enumerate(cases):
             if len(sel) >= n_ie:
                 break
-            if len(r["boxes"]) > 4 or per[r["cfg"]] >= max(3, n_ie // 5):
+            if len(r["boxes"]) > (3 if chk.tier == "quick" else 4) or per[r["cfg"]] >= max(3, n_ie // 5):
                 continue
             per[r["cfg"]] += 1
             sel.append(i)
@@ -445,7 +445,8 @@ def run(chk):
         "distinct_nontrivial": len(nontrivial),
         "rule": "sets of 1..8 boxes from the streams int / intbig (integer ltwh: own_share_grid by coqc on every one) / aa / rot / rotwide / "
                 "degenerate (identical, right-angle rotations, shared edges, corner contacts, almost collinear) / collinear (DESIGN section 6); "
-                "every set: exact slab-decomposition oracle, sampling cross-check, all permutations for n<=4 (3 random ones above), "
+                "every set: every call under catch_unwind and a 20 s watchdog (a panic / a call that does not return is a result), "
+                "exact slab-decomposition oracle, sampling cross-check, all permutations for n<=4 (3 random ones above), "
                 "exact replay of own_shares_ie; a subset of sets with <=4 boxes evaluated by coqc. "
                 "non-trivial = some box of the set is partially covered (0 < uncovered < area); distinct by box fields",
         "samples": [c["raw"][:300] for c in cases[1:4]],
@@ -471,8 +472,12 @@ def run(chk):
             if key == KEY_NORETURN and not rr.get("timeout"):
                 return False
             return bool(oracle(rr)) and rotated_collinear_family(rr) == want_known
-        boxes = shrink_set(r, pred)
-        rr = eval_set(boxes) or r
+        if key == KEY_NORETURN and len(r["boxes"]) <= 4:
+            boxes = [dict(b) for b in r["boxes"]]          # every probe of a non-returning call costs the watchdog time
+            rr = r
+        else:
+            boxes = shrink_set(r, pred)
+            rr = eval_set(boxes) or r
         ff = oracle(rr)
         line = set_line("replay", boxes)
         if chk.is_known(key):
